@@ -21,6 +21,11 @@ func applyExclusions(qc *g7lib.QCfg) {
 	qc.NoCoalesceDecMix = true  // coalesce-decimal-args-forced-to-one-scale
 	qc.NoConstFalseOnSub = true // constant-false-on-with-subquery
 	qc.NoOuterOnlyInSub = true  // subquery-outer-only-conjunct-hoisted
+	qc.NoHashDecScaleMix = true // hash-equality-decimal-scale
+	qc.NoIntDecEquality = true  // lookup-join-int-index-decimal-key-rounded
+	qc.NoDecScaleCompare = true // decimal-compare-right-operand-rounded-to-left-scale
+	qc.NoNullArith = true       // (guard, not a finding) NULL literal arithmetic is typed DOUBLE
+	qc.NoOnNullableInner = true // inner-join-on-nullable-side-conjunct-lost (F17)
 }
 
 func hasFeature(w *witness, f string) bool {
@@ -66,6 +71,11 @@ func classify(q *g7lib.Query, d *g7lib.Diff, w *witness, ev *g7lib.Evaluator) st
 			}
 		}
 	}
+	// except-phantom-empty-row: single-column EXCEPT [ALL] that loses exactly one row '' (the empty
+	// string) and nothing else: ExceptIter also hashes the nil row it gets with io.EOF.
+	if q.SetOp == "EXCEPT" && q.Width() == 1 && len(d.Extra) == 0 && len(d.Missing) == 1 && d.Missing[0] == "''" && d.Mode == "missing-rows" {
+		return "except-phantom-empty-row"
+	}
 	return "mismatch:" + d.Mode + ":" + featureClass(w.Features)
 }
 
@@ -88,6 +98,7 @@ var pinSetup = []string{
 	"INSERT INTO t VALUES (1,1,1,1.50,'a')", "INSERT INTO t VALUES (2,NULL,2,NULL,'A')", "INSERT INTO t VALUES (3,2,2,2.25,NULL)",
 	"INSERT INTO t VALUES (4,10,3,10.00,'a ')", "INSERT INTO t VALUES (5,5,3,0.05,'b')",
 	"INSERT INTO u VALUES (1,1,1,1.50,'a')", "INSERT INTO u VALUES (2,NULL,2,NULL,'B')", "INSERT INTO u VALUES (3,3,2,2.25,NULL)",
+	"INSERT INTO u VALUES (4,7,7,7.00,'')",
 }
 
 type pin struct {
@@ -113,7 +124,17 @@ func pins() []pin {
 		mk("coalesce-decimal-args-forced-to-one-scale", "COALESCE over DECIMAL arguments of different precision/scale rounds the value to one argument's type (or fails with out-of-range)",
 			"SELECT x.id AS c0 FROM t x WHERE (COALESCE(x.d, 0.0) = 2.25)", false, "3"),
 		mk("subquery-outer-only-conjunct-hoisted", "a subquery WHERE conjunct that references only outer columns is evaluated as a filter of the outer query (wrong for NOT IN / NOT EXISTS / scalar aggregates / NULL)",
-			"SELECT x.id AS c0 FROM t x WHERE (x.b >= (SELECT COUNT(*) AS c0 FROM u y WHERE (x.s <> 'a')))", false, "1", "3", "4", "5"),
+			"SELECT x.id AS c0 FROM t x WHERE (x.b >= (SELECT COUNT(*) AS c0 FROM u y WHERE (x.s <> 'a')))", false, "1", "3"),
+		mk("hash-equality-decimal-scale", "IN (subquery), set operations and DISTINCT compare DECIMAL values of different scale (2.25 vs 2.2500) and INT vs BOOLEAN as unequal",
+			"SELECT x.id AS c0 FROM t x WHERE (x.d IN (SELECT (y.d * 1.00) AS c0 FROM u y))", false, "1", "3"),
+		mk("lookup-join-int-index-decimal-key-rounded", "INT column = DECIMAL column as a join condition: the lookup into the integer index rounds the decimal key (2 matches 1.50 and 2.25)",
+			"SELECT x.id AS c0, y.id AS c1 FROM t x INNER JOIN u y ON (x.id = y.d)", false),
+		mk("decimal-compare-right-operand-rounded-to-left-scale", "DECIMAL(8,2) column compared with a decimal value of larger scale: the right operand is rounded to the left operand's scale (0.05 = 0.0525 is TRUE)",
+			"SELECT x.id AS c0 FROM t x WHERE (x.d = ((x.d * x.d) + x.d))", false),
+		mk("inner-join-on-nullable-side-conjunct-lost", "a LEFT JOIN b .. INNER JOIN c ON (.. AND <predicate on b>): join reordering drops the conjunct on the nullable table (F17)",
+			"SELECT x.id AS c0, z.id AS c1 FROM t x LEFT JOIN u y ON (x.b = y.b) INNER JOIN u z ON ((x.id = z.b) AND (y.a <> y.d))", false, "1|1", "2|2", "2|3"),
+		mk("except-phantom-empty-row", "single-column EXCEPT [ALL] removes one row '' (empty string) too many: ExceptIter hashes the nil row returned with io.EOF",
+			"(SELECT x.s AS c0 FROM u x) EXCEPT ALL (SELECT y.s AS c0 FROM t y)", false, "'B'", "''"),
 		mk("constant-false-on-with-subquery", "a join whose ON condition is constant false combined with a subquery predicate fails ('failed to replan join: ... *memo.EmptyTable' / 'unable to find field with index')",
 			"SELECT x.id AS c0 FROM t x LEFT JOIN u y ON (1 = 0) WHERE (NOT EXISTS (SELECT z.d AS c0 FROM u z WHERE (y.b = z.d)))", false, "1", "2", "3", "4", "5"),
 	}
